@@ -40,7 +40,8 @@ COMPONENTS = {
                           'across-interpreter cases: three real python subprocesses with different PYTHONHASHSEED on a real tmpfs directory'],
 }
 ASSUMPTIONS = [
-    'addresses are valid grid addresses (x, y < 2**z); dimension values contain no path separators (that is C09)',
+    'addresses are valid grid addresses (x, y < 2**z); dimension values are plain values or ISO intervals with one solidus (no '
+    '.. components, no leading separators: that is C09)',
     'single-colour payloads are byte-identical for equal colour, so link sharing is legitimate',
     'I/O-fault configuration: the failing call may leave its own addresses old, new or missing - never anything else',
 ]
